@@ -16,6 +16,7 @@
 #include <mm/msg_allocator.h>
 
 #include <mpi.h>
+#include <core/verif.h>
 
 enum {
 	RS_MSG_TAG = 0,
@@ -197,11 +198,13 @@ void mpi_remote_msg_handle(void)
 			MPI_Mrecv(msg_remote_data(msg), size, MPI_BYTE, &mpi_msg, MPI_STATUS_IGNORE);
 
 			gvt_remote_anti_msg_receive(msg);
+			VERIF_TRACE(VK_RECV_REMOTE_ANTI, msg, 0, 0);
 		} else {
 			msg = msg_allocator_alloc(size - offsetof(struct lp_msg, pl) + msg_preamble_size());
 			MPI_Mrecv(msg_remote_data(msg), size, MPI_BYTE, &mpi_msg, MPI_STATUS_IGNORE);
 
 			gvt_remote_msg_receive(msg);
+			VERIF_TRACE(VK_RECV_REMOTE, msg, 0, 0);
 		}
 		msg_queue_insert(msg);
 	}
